@@ -271,6 +271,9 @@ func runCheck(p *Prog, prop, tier string, timeout, workers int, verbose bool) in
 	case "C13":
 		addStruct("global.state", p.globalStateScan([]string{"/soyjs", "/soymsg", "/parsepasses", "/parse", "/template", "/ast", ""}))
 		addStruct("goroutine.covered", p.goStmtScan([]string{"/soyjs", "/soymsg", "/parsepasses", "/parse", "/template", "/ast", "/data", "/errortypes", ""}))
+	case "C05":
+		// recursion on the input is bounded in depth (a stack overflow cannot be recovered from)
+		addStruct("stack.covered", p.stackCoverScan([]string{"/parse"}))
 	case "C10":
 		// ids and names must not depend on other messages or earlier compilations
 		addStruct("global.state", p.globalStateScan([]string{"/soymsg", "/parsepasses", "/ast"}))
@@ -447,6 +450,14 @@ func runCheck(p *Prog, prop, tier string, timeout, workers int, verbose bool) in
 	}
 	assume["go/ssa (x/tools v0.29.0) faithfully represents the compiled code; govc's encoding of SSA instructions; the SMT solvers"] = true
 	assume["machine integers are treated as mathematical integers (no overflow modelling)"] = true
+	if prop == "C05" {
+		assume["stack depth: the recursion of package parse is bounded by the stackbound tuples (stack / stack.covered obligations) over the static call graph; calls through function values and interfaces are not followed, frame sizes are not modelled, and the recursion of later passes over the tree is bounded only by the tree height the parser enforces (argument on paper)"] = true
+	}
+	for _, o := range out.Obls {
+		if o.Kind == "stack.covered" && strings.HasPrefix(o.Src, "ASSUMED") {
+			assume[o.Name+": "+o.Src] = true
+		}
+	}
 	var al []string
 	for a := range assume {
 		al = append(al, a)
